@@ -33,7 +33,7 @@ PARALLEL = 6
 IMPORTS = "From Verif Require Import Base.Xml Base.ClassTable C12.Model C12.Build C12.Corr.\nFrom VerifGen Require Import ClassTables C12Vocab."
 CASE_TYPE = "C12.Corr.case"
 RUNNER = "C12.Corr.run"
-FINDING_CLASSES = {1: "C12-F1", 2: "C12-F2", 3: "C12-F3", 4: "C12-F4", 5: "C12-F5", 6: "C12-F6", 7: "C12-F7", 8: "C12-F8", 9: "C12-F9"}
+FINDING_CLASSES = {1: "C12-F1", 2: "C12-F2", 3: "C12-F3", 4: "C12-F4", 5: "C12-F5", 6: "C12-F6", 7: "C12-F7", 8: "C12-F8", 9: "C12-F9", 10: "C12-F10"}
 RULE = ("every class of the live table (core: saml, samlp, md, xmldsig, xmlenc, extension.*, soapenv, ecp, paos, samlec; "
         "extra: ws.*, authn_context.*) x seeded random instances (minimal / random / with foreign elements, foreign "
         "attributes and hostile characters / every schema attribute present with the EMPTY string; attribute values, "
@@ -2003,7 +2003,7 @@ R5_VALUES = [["absent"], ["none"], ["str", ""], ["str", " "], ["str", "abc"], ["
 R5_ARGS = [None, [[[XSI, "type"], "xs:string"]], [[[XSI, "type"], "xs:integer"]], [[[None, "foo"], "bar"]],
            [[[XSI, "nil"], "true"]], [[[XSI, "type"], "xsd:string"], [[FOREIGN_NS[0], "lang"], ""]]]
 R5_TYPES = ["xs:string", "xs:integer", "xs:boolean", "xs:anyType", "xs:base64Binary", "xsd:string", "xsd:integer", "my:type",
-            "string", "integer", "boolean", "plain", "", "xs:float", "xs:"]
+            "string", "integer", "boolean", "plain", "", "xs:float", "xs:", "anyType", "xsd:anyType"]
 R5_TYPED_TEXTS = {"integer": ["7", " 42 ", "abc", ""], "boolean": ["TRUE", "yes", ""], "float": ["1.5"]}
 
 
@@ -2061,9 +2061,20 @@ def generate_round5(ctx, cases, rng):
                 rc = ctor(["absent"], None, None)
                 rc["ops"] = [["type", typ]] + ([["text", ["str", x], rng.choice(["call", "attr"])]] if x is not None else [])
                 add(rc, "fresh;type;text")
-            rc = ctor(["absent"], None, None)
-            rc["ops"] = [["type", typ], ["text", rng.choice([["int", "7"], ["bool", True], ["none"], ["float", "1.5"]]), "call"]]
-            add(rc, "fresh;type;text")
+            # every Python type of the value under every type spelling (one of the four was drawn at random until the
+            # thorough tier met set_type("xs:anyType"); set_text(None) - finding C12-F10 - which the quick tier's draw missed;
+            # the draw is kept first so that the seeded recipes below are what they were)
+            nonstr = [["int", "7"], ["bool", True], ["none"], ["float", "1.5"]]
+            first = rng.choice(nonstr)
+            for v in [first] + [x for x in nonstr if x != first]:
+                rc = ctor(["absent"], None, None)
+                rc["ops"] = [["type", typ], ["text", v, "call"]]
+                add(rc, "fresh;type;text")
+            if base == "anyType":       # ... and None next to extension elements / through the attribute spelling
+                for ext, how in ((None, "attr"), ([ee1()], "call")):
+                    rc = ctor(["absent"], ext, None)
+                    rc["ops"] = [["type", typ], ["text", ["none"], how]]
+                    add(rc, "fresh;type;text")
         for _ in range(600 if ctx.thorough else 140):                   # (d)
             rc = ctor(rng.choice(R5_VALUES), rng.choice([None, None, "empty", [ee1()]]), rng.choice(R5_ARGS))
             pat = rng.choice(["xts", "xts", "tsx", "sx", "ss", "t", "x", "s", "cs", "c", "scs"])
